@@ -39,6 +39,7 @@ reg("L7", flow.rule_L7, 10)
 reg("L8r", flow.rule_L8r, 30)
 reg("L8a", flow.rule_L8a, 8)
 reg("L8c", flow.rule_L8c, 10)
+reg("L9", flow.rule_L9, 1)
 
 for _f, _n in (("N1", 10), ("N2", 10), ("N3", 10), ("N4", 10), ("N5", 8), ("N6", 6), ("N7", 6), ("N8", 8), ("N9", 20), ("N10", 2), ("N11", 2), ("X1", 10)):
     reg(_f, getattr(names, "rule_" + _f), _n)
@@ -52,7 +53,7 @@ for _f, _n in (("B1", 25), ("B2", 20), ("B3", 5)):
 for _f, _n in (("Q1", 20), ("Q2", 12), ("Q3", 4), ("Q4", 2), ("C1", 15), ("C2", 5)):
     reg(_f, getattr(cue, "rule_" + _f), _n)
 
-for _f, _n in (("I1", 10), ("I2", 6), ("I3", 3), ("I4", 5), ("I5", 6), ("I6", 60), ("I7", 1), ("O1", 6), ("R1", 1)):
+for _f, _n in (("I1", 10), ("I2", 6), ("I3", 3), ("I4", 5), ("I5", 6), ("I6", 60), ("I7", 1), ("I8", 1), ("O1", 6), ("R1", 1)):
     reg(_f, getattr(isolation, "rule_" + _f), _n)
 
 for _f, _n in (("F1", 3), ("F2", 3), ("F3", 3), ("F4", 2), ("F5", 10), ("F6", 15)):
@@ -71,14 +72,15 @@ def _p(rules, explanation, extra_assumptions=()):
 NOT = " NOT decided (runtime remainder): "
 
 PROPS = {
-    "C01": _p(["L1a", "L2", "L8a", "S1", "S3", "S4p", "D1a", "D2", "D3a", "D4", "L7", "P7", "N1", "N9", "N5", "S5", "R1", "I6"],
+    "C01": _p(["L1a", "L2", "L8a", "S1", "S3", "S4p", "D1a", "D2", "D3a", "D4", "L7", "P7", "N1", "N9", "N5", "S5", "R1", "I6", "L9"],
               "Structural necessary conditions of byte-exact AKAI export: evaluated construct layouts of partition/volume/file-entry/sample-header "
               "(offset, width, sign, endianness, data-window terms offset = header_end + 2*play_start, size = 2*(play_end - play_start)) equal the reviewed "
               "reference (L1a, L2); both sample type bytes reach the sample parser (L8a); chain walk shape (S1), address maps (S3), multi-sector split "
               "accounting (S4p: all of S4 except the empty-request guard, which since the G13 repair no longer affects an export), clip/advance of reads (S5); SAT decoder exits install their links and only at END "
               "words (D1, D3) with the documented flag values (D2); segment/file streams built from get_path (D4); export walk hands every sample over once and "
               "writes one truncated 'wb' file per `Exported` line with the header's rate (P7, L7); streams rewound before export (R1); the shared construct "
-              "objects keep no per-partition state (I6: the allocation table of partition A is never reused for partition B)." + NOT +
+              "objects keep no per-partition state (I6: the allocation table of partition A is never reused for partition B); the file table of a volume is "
+              "scanned over the whole directory stream (L9)." + NOT +
               "byte equality of outputs; that the decoded SAT equals the intended allocation for every table; directory reserved-run handling beyond D1/D3. "
               "Known finding G7 (head-not-lowest chains are truncated) is reported as KNOWN-FINDING.",
               ["the reviewed layout reference (sa/reference/layouts.json) matches the AKAI S1000/S3000 format as documented (140-byte sample header, 150-byte keygroup)"]),
@@ -156,7 +158,7 @@ PROPS = {
               "exponential-backtracking construct - nested unbounded repeats or overlapping alternatives under a repeat (T5); a failed block read ends the data iterator with "
               "StopIteration (S9: an empty block instead would be re-requested forever)." + NOT + "complexity constants; loops inside construct/numpy; peak memory.",
               ["sector_length/buffer_length attributes are positive (constructor sites pass positive constants)", "the element parent relation is a tree"]),
-    "C14": _p(["I1", "I5", "I4", "L1t", "L4", "L2", "S1", "S2"],
+    "C14": _p(["I1", "I5", "I4", "L1t", "L4", "L2", "S1", "S2", "L9"],
               "Decides: in the AKAI file-table loop the handler re-seeks to entry start + entry size and continues; in lazy file realisation the error path appends nothing and continues; "
               "the four Roland sample references and tolerant lists skip a failing element; Roland records are addressed absolutely (Computed/Pointer/Lazy only) so element i cannot shift "
               "element j (I1, L4); 24-byte file entries / record layouts (L1t, L2); out-of-range start sectors raise the exception the loop swallows (S1, S2)." + NOT +
@@ -165,12 +167,13 @@ PROPS = {
               "Decides: a short sector read is detected on every returning path of SectorStream._read (S4e) and ends the data stream instead of aborting (S9); partition scan leaves its "
               "loop on the first unparsable header (T1-STREAM-PARSE exits); length prefixes wrap the streamed data (L1w); unreadable files are skipped without stopping the remaining ones "
               "(I1); whole-frame blocks (P5); the last CDDA track runs to the end of the file as it is (L8c)." + NOT + "prefix equality; which files are reported for which cut."),
-    "C16": _p(["I2", "I3", "R1", "N2", "N7", "S6", "S8", "N5", "N4", "L8r", "I6", "I7"],
+    "C16": _p(["I2", "I3", "R1", "N2", "N7", "S6", "S8", "N5", "N4", "L8r", "I6", "I7", "I8"],
               "Decides: accumulating / position-dependent realisers run once under a flag they always set (I2); no write-capable call outside the export path, inputs opened read-only "
               "(I3, N5); data streams are rewound before every export (R1); both actions install both naming routines before traversing, so what an operation sees does not depend on which "
               "ran first (N2); names recomputed from raw names (N7); no read depends on where an earlier operation left the shared cursor (S6, S8); name sanitising is a function of (raw name, "
               "file/directory flag) only (N4); Roland sample realisation derives its window from the stored stream without replacing it (L8r); construct singletons are not written "
-              "to after construction (I6); nothing stored on a (memoised) element is a one-shot iterator that the first traversal would use up (I7)." + NOT +
+              "to after construction (I6); nothing stored on a (memoised) element is a one-shot iterator that the first traversal would use up (I7); "
+              "users of memoised child / file lists never change them in place (I8)." + NOT +
               "equality across operation histories; effects of context mutation in wrap_child_realization."),
     "C17": _p(["Q1", "Q2", "Q3", "Q4", "T1"],
               "Decides: the four line regexes are case-insensitive, tolerate leading blanks, match their keyword and capture the documented groups (Q1); blank lines are judged on the fully "
